@@ -12,6 +12,7 @@ PROP = {
              "with a state change and has < N observations or spans < the stable period under every reading); distinct = distinct "
              "(settings, script, latencies)"),
     "assumptions": [
+        "unit TestWiringWithProxyFaults: the management calls (PUT) of generated reaction attempts are answered 503; a refused attempt counts as the watcher's reaction at the instant of its first call (direction: the opposite of the attempt before); the process clock is the case's virtual clock in a variant that parks sleepers of other goroutines until the watcher has moved time past their wake-up, so background work runs inside the case's time line; the policies may change only right after a qualifying run of observations (same reactions, at the same observations, as a bare watcher on the same script)",
         "one predicate call takes > 0 virtual time (the real predicate is an HTTP round trip); the watcher blocks only in clock.After / clock.Sleep, which advance virtual time immediately",
         "the time of an observation may be read as the call or the return of the predicate, and the stable period may be measured from the run's first observation or from the previous observation; a reaction is accepted if any reading satisfies the statement",
         "completeness is checked only with a clear margin (strictest reading of count and span plus one further observation of the same state); firing exactly at the N-th observation is counted (class reactions-at-earliest-allowed-observation, ref-agree) but not demanded",
@@ -21,6 +22,7 @@ PROP = {
         {"pkg": "c20", "test": "TestExhaustive", "kind": "plain"},
         {"pkg": "c20", "test": "TestRandomRuns", "quick": 20000, "thorough": 300000, "shards": 8},
         {"pkg": "c20", "test": "TestWiring", "quick": 1500, "thorough": 20000, "shards": 4},
+        {"pkg": "c20", "test": "TestWiringWithProxyFaults", "quick": 1500, "thorough": 30000, "shards": 8},
     ],
     "technique": ("bounded-exhaustive enumeration + property-based testing (rapid) of the real watcher goroutine under a deterministic "
                   "auto-advancing virtual clock; oracle = temporal conditions of the statement over the callback trace with virtual "
